@@ -163,7 +163,7 @@ def gen_limits():
         raise Unsupported("StringLiteral.to_typing_code: limit test")
     ex2 = Expr({"limit": "limit"}, {"literals": "literals"})
     render = ex2.bool(if1.test.values[1])
-    want_body = ["parts = ', '.join((json.dumps(s) for s in sorted(self.literals)))",
+    want_body = ["parts = ', '.join((json.dumps(s, ensure_ascii=False) for s in sorted(self.literals)))",
                  "return ([(Literal.__module__, 'Literal')], f'Literal[{parts}]')"]
     got_body = [ast.unparse(s) for s in if1.body]
     if got_body != want_body:
